@@ -13,20 +13,20 @@ import (
 // Level is one of the metrics struct types (Base, Temporal, Environmental) of
 // one CVSS version.
 type Level struct {
-	Spec     *spec.Level
-	Version  *spec.Version
-	Pkg      *packages.Package
-	Named    *types.Named
-	Struct   *types.Struct
-	Embedded *types.Var // anonymous pointer to the lower level, nil for Base
-	Lower    *Level
-	Metrics  []*types.Var          // fields named like the spec's metrics of this level, in struct order
-	ByName   map[string]*types.Var // metric name -> field
-	VerField *types.Var            // v3 Base only
-	Names    *types.Var            // the unexported set of names seen (map[string]bool)
-	DecodeOne *types.Func          // the unexported per-token decoder: func (*T) X(string) error
-	Other    []*types.Var          // anything else declared in the struct
-	Problems []string
+	Spec      *spec.Level
+	Version   *spec.Version
+	Pkg       *packages.Package
+	Named     *types.Named
+	Struct    *types.Struct
+	Embedded  *types.Var // anonymous pointer to the lower level, nil for Base
+	Lower     *Level
+	Metrics   []*types.Var          // fields named like the spec's metrics of this level, in struct order
+	ByName    map[string]*types.Var // metric name -> field
+	VerField  *types.Var            // v3 Base only
+	Names     *types.Var            // the unexported set of names seen (map[string]bool)
+	DecodeOne *types.Func           // the unexported per-token decoder: func (*T) X(string) error
+	Other     []*types.Var          // anything else declared in the struct
+	Problems  []string
 }
 
 func (l *Level) String() string { return load.Rel(l.Pkg.PkgPath) + "." + l.Named.Obj().Name() }
